@@ -8,6 +8,12 @@
 (*                 judged here against the specification's tables; numeric closeness of the   *)
 (*                 returned floats to the specification's exact value is computed by the      *)
 (*                 harness (mpmath) and arrives as booleans that must be TRUE.                *)
+(*                 Hardening round: the layout the operands were handed over in, whether an    *)
+(*                 operand was integer-typed, whether data / result are event (binned) data and *)
+(*                 whether the call belongs to the replay at the end of the run are recorded;   *)
+(*                 a refusal (scipp DTypeError) is allowed for integer operands only, an event  *)
+(*                 operand must give an event result, and the precision class of an integer     *)
+(*                 data operand is double.                                                      *)
 (*  ev = "agree" : two routes of the specification's graph evaluated by the real kernels on    *)
 (*                 the same input; both must be routes of EdgeTable to the same quantity.      *)
 EXTENDS KinematicsDefs, TLC, Json, IOUtils
@@ -24,17 +30,27 @@ JudgeGraph(e) ==
     ELSE IF { <<p[1], p[2]>> : p \in SeqToSet(e.edges) } # AllEdges(e.origin) THEN "graph_table_differs"
     ELSE "ok"
 
+Layouts == {"scalar", "1d", "bcast", "bcast/scalar-data", "perpixel", "perpixel/T", "perpixel/view", "perpixel/slice", "binned", "binned/gaps"}
+DTypesIn == {"float64", "float32", "int64", "int32"}
+IsIntDType(d) == d \in {"int64", "int32"}
+
 JudgeCall(e, prev) ==
     IF e.o \notin Origins \/ e.target \notin DOMAIN EdgeTable[e.o] THEN "no_such_edge_in_spec"
+    ELSE IF e.layout \notin Layouts \/ e.dt_in \notin DTypesIn THEN "unknown_layout_or_dtype"
+    ELSE IF IsIntDType(e.dt_in) /\ ~e.has_int THEN "event_inconsistent"
+    ELSE IF e.binned_in # (e.layout \in {"binned", "binned/gaps"}) THEN "event_inconsistent"
     ELSE LET ker == EdgeTable[e.o][e.target] IN
          IF e.status = "missing" THEN "edge_missing_in_real_graph"
     ELSE IF e.kernel # ker THEN "kernel_wired_to_wrong_node"
     ELSE IF KernelSig[ker].in # e.kind_in THEN "walk_takes_edge_from_wrong_coordinate"
     ELSE IF prev.tid = e.tid /\ prev.ev = "call" /\ prev.target # e.kind_in THEN "walk_not_continuous"
     ELSE IF e.status = "raised" THEN "kernel_raised"
+    ELSE IF e.status = "unsupported" THEN (IF e.has_int THEN "ok" ELSE "float_operands_refused")
+    ELSE IF e.status # "ok" THEN "unknown_status"
     ELSE IF SeqToSet(e.params) # KernelSig[ker].aux \cup {e.kind_in} THEN "kernel_signature"
     ELSE IF e.unit_out # OutUnit(e.target, e.unit_in) THEN "output_unit"
     ELSE IF e.dt_out # OutDType(e.dt_in) THEN "output_dtype"
+    ELSE IF e.binned_out # e.binned_in THEN "result_layout"
     ELSE IF ~e.dims_ok THEN "output_dims"
     ELSE IF ~e.finite THEN "non_finite_result"
     ELSE IF ~e.close THEN "value_differs_from_definition"
